@@ -15,7 +15,7 @@ import time
 from bounded import readers as RD
 
 ALPHABET = ["a", "b", ".", '"', "\\", "$", "{", "}", " ", "-", "\n"]
-EXTRA = ["${", "${a}", "a${", "}${", "\\${", "$${", "''", "a.b", ".", "..", "if", "let", "1a", "a'", "_", "é", "a\tb", "\r", "\\n"]
+EXTRA = ["a@b", "@", "@types/node", "x@", "${", "${a}", "a${", "}${", "\\${", "$${", "''", "a.b", ".", "..", "if", "let", "1a", "a'", "_", "é", "a\tb", "\r", "\\n"]
 DOCS = {
     "plain": "{\n  k = 0;\n}\n",
     "attrpath-family": "{\n  x.q = 0;\n  k = 0;\n}\n",
